@@ -520,6 +520,7 @@ psgssvx(int_t nprocs, superlumt_options_t *superlumt_options, SuperMatrix *A,
     if ( A->Stype == SLU_NR ) {
 	NRformat *Astore = A->Store;
 	AA = (SuperMatrix *) SUPERLU_MALLOC( sizeof(SuperMatrix) );
+	if ( !AA ) SUPERLU_ABORT("SUPERLU_MALLOC fails for AA.");
 	sCreate_CompCol_Matrix(AA, A->ncol, A->nrow, Astore->nnz, 
 			       Astore->nzval, Astore->colind, Astore->rowptr,
 			       SLU_NC, A->Dtype, A->Mtype);
